@@ -564,3 +564,34 @@ def handlers(ctx, prog):
     nid, ad_, up, tp, al = mk.fi.params()[:5]
     ok = r is not None and norm_text(r.value) == f"KademliaPeer({ad_}, {nid}, {up}, tcp_port={tp}, allow_localhost={al})" and is_const(mk.node.args.defaults[-1], False)
     ctx.ob("C12-D5/VALID", ok, mk.site(), "make_kademlia_peer builds the validated peer from exactly its arguments (localhost not allowed by default)", func=mk.fi.qualname)
+    # "contacts that actually replied": the reply record is written by report_last_replied only, and that is called from the response handler only
+    PM = "lbry.dht.peer.PeerManager"
+    for attr, owner in (("_last_replied", "report_last_replied"), ("_last_requested", "report_last_requested"), ("_last_sent", "report_last_sent")):
+        sites = []
+        for f in prog.functions.values():
+            if not f.module.name.startswith("lbry.dht"):
+                continue
+            for x in walk_local_body(f.node):
+                if isinstance(x, (ast.Assign, ast.AugAssign)):
+                    for t in (x.targets if isinstance(x, ast.Assign) else [x.target]):
+                        if isinstance(t, ast.Subscript) and isinstance(t.value, ast.Attribute) and t.value.attr == attr:
+                            sites.append((f, x))
+        ok = len(sites) == 1 and sites[0][0].qualname == f"{PM}.{owner}"
+        ctx.ob("C12-D5/WRITERS", ok, sites[0][0].site(sites[0][1]) if sites else "lbry/dht/peer.py:1", f"`{attr}` entries are written by PeerManager.{owner} only (a request or a sent datagram is not a reply)",
+               detail=str([f.qualname for f, _x in sites]), key=f"C12-D5/WRITERS|{attr}")
+        if ok:
+            f, x = sites[0]
+            a, u = f.params()[1:3]
+            okv = norm_text(x.targets[0].slice) == f"({a}, {u})" and dotted(x.value) == "now" and any(norm_text(y) == "now = self._loop.time()" for y in ast.walk(f.node) if isinstance(y, ast.Assign))
+            ctx.ob("C12-D5/WRITERS", okv, f.site(x), f"…keyed by the (address, udp port) reported, with the current loop time", func=f.qualname, key=f"C12-D5/WRITERS|{attr}|value")
+    R.callers_only(ctx, "C12-D5/CALLERS", "report_last_replied", ["lbry.dht.protocol.protocol.KademliaProtocol.handle_response_datagram",
+                                                                     "lbry.dht.protocol.protocol.KademliaProtocol.send_request"], "a reply is recorded", floor=2, module_prefix="lbry.dht")
+    sr = ctx.fa("lbry.dht.protocol.protocol.KademliaProtocol.send_request")
+    for c in sr.calls(name="report_last_replied"):
+        aw = [a for a in sr.local_nodes(ast.Await) if "wait_for(response_fut" in norm_text(a)]
+        ok = bool(aw) and sr.must_precede(c, lambda n: n is aw[0]) is None and R.in_handler(c, sr) is None
+        ctx.ob("C12-D5/CALLERS", ok, sr.site(c), "…in send_request only after the awaited response future delivered (never from a timeout / cancellation handler)", func=sr.fi.qualname)
+    pg = ctx.fa(f"{PM}.contact_triple_is_good")
+    t = unparse(pg.node)
+    ok = "last_replied = self._last_replied.get((address, udp_port))" in t and "last_requested = self._last_requested.get((address, udp_port))" in t
+    ctx.ob("C12-D5/WRITERS", ok, pg.site(), "the goodness verdict reads the reply record under the name `last_replied` and the request record under `last_requested`", func=pg.fi.qualname)
